@@ -189,6 +189,10 @@ func (g *GcsEmu) handleGcsCompose(ctx context.Context, baseUrl HttpBaseUrl, w ht
 		g.gapiError(w, http.StatusBadRequest, "bad compose request")
 		return
 	}
+	if req.Destination == nil {
+		g.gapiError(w, http.StatusBadRequest, "bad compose request: missing destination")
+		return
+	}
 	dst := composeObj{
 		filename: parts[0],
 		conds:    conds,
